@@ -408,9 +408,9 @@ fn shrink(script: &[String], kind: &str, sig: &str, property: Option<&str>, dir:
 /// in its own file. The documents are loaded, saved by the library, loaded again and saved again: identifiers (of the
 /// root, of the sub-store, of the items), which annotation belongs to which store and the texts must be the same, and
 /// the second save must write what the first wrote.
-fn check_substores(rep: &mut Report, dir: &std::path::Path, i: usize) {
-    let sub = dir.join(format!("ss{}", i));
-    std::fs::create_dir_all(&sub).ok();
+/// write a root store document that @includes one or two sub-store documents into `sub`; returns the path of the root
+pub fn write_substore_docs(sub: &std::path::Path, i: usize) -> std::path::PathBuf {
+    std::fs::create_dir_all(sub).ok();
     let root_has_id = i % 2 == 0;
     let sub_has_id = i % 3 != 0;
     let nsub = 1 + i % 2;
@@ -426,6 +426,15 @@ fn check_substores(rep: &mut Report, dir: &std::path::Path, i: usize) {
     }
     let rootpath = sub.join("root.store.stam.json");
     std::fs::write(&rootpath, doc(if root_has_id { Some("the-root") } else { None }, &subnames, "root")).ok();
+    rootpath
+}
+
+fn check_substores(rep: &mut Report, dir: &std::path::Path, i: usize) {
+    let sub = dir.join(format!("ss{}", i));
+    let root_has_id = i % 2 == 0;
+    let sub_has_id = i % 3 != 0;
+    let nsub = 1 + i % 2;
+    let rootpath = write_substore_docs(&sub, i);
     let p = rootpath.to_str().unwrap().to_string();
     let ctx = vec![format!("sub-stores: root {} an identifier, {} sub-store(s) {} identifiers, loaded from {}", if root_has_id { "with" } else { "without" }, nsub, if sub_has_id { "with" } else { "without" }, "root.store.stam.json")];
     rep.count("json:substores");
